@@ -24,6 +24,20 @@ CHECKS = {
              "safetensors writer, shard file naming (checked by the oracle only).",
         technique="Coq proof over translated+hand model; vm_compute correspondence with real save/load",
         design_ref="§6 C07"),
+    "C12": dict(
+        level="proof",
+        text="Seven theorems, none partial, proved in Coq for all scopes (any DAG/cyclic graph, nesting depth, captures): "
+             "outcome is Ok or ValueError (fuel = node count suffices), every graph keeps exactly its nodes (permutation), "
+             "Ok result respects same-graph producers of values used by a node or anything nested in it, ValueError iff the "
+             "dependency relation is cyclic, nothing changes on ValueError, an ordered well-scoped scope is left exactly "
+             "as it was, determinism. The model of Graph.sort/Function.sort/TopologicalSortPass is tied to the code by "
+             "Coq-evaluated correspondence on generated forests (all orders, outcome, modified flag), reruns under other "
+             "hash seeds and allocation orders; the oracle states the property on the implementation and supplies replays.",
+        note=TRUST + "Modelled, not verified: heapq (only its contract 'pop returns the largest original index'), "
+             "CPython object identity/hash order (reruns under other PYTHONHASHSEED), RecursiveGraphIterator pre-order "
+             "(tied by the correspondence). Hypothesis wf: no node/graph object occurs twice in the scope.",
+        technique="Coq proof over hand model of reverse-Kahn sort; vm_compute correspondence with Graph.sort",
+        design_ref="§6 C12, §10"),
 }
 
 NOT_YET = "no check registered yet in this revision (model under construction; see DESIGN.md §6)"
